@@ -216,13 +216,13 @@ func (runInfo *runInfoStruct) callExpr() {
 	// useCallSlice lets us know to use CallSlice instead of Call because of the format of the args
 	if useCallSlice {
 		if callExpr.Go {
-			go f.CallSlice(args)
+			go runInfo.callInGoroutine(func() { f.CallSlice(args) })
 			return
 		}
 		rvs = f.CallSlice(args)
 	} else {
 		if callExpr.Go {
-			go f.Call(args)
+			go runInfo.callInGoroutine(func() { f.Call(args) })
 			return
 		}
 		rvs = f.Call(args)
@@ -255,6 +255,15 @@ func (runInfo *runInfoStruct) callExpr() {
 // matches the function signature.
 // handled is a named return so it stays true when recoverFunc recovers a
 // panic from the called function.
+// callInGoroutine runs call on a goroutine started by a `go` statement. Outside debug mode a panic
+// of the callee is contained: there is nobody to report it to, but it must not take the host down.
+func (runInfo *runInfoStruct) callInGoroutine(call func()) {
+	if !runInfo.options.Debug {
+		defer func() { _ = recover() }()
+	}
+	call()
+}
+
 func (runInfo *runInfoStruct) callVMFunctionDirect(f reflect.Value, callExpr *ast.CallExpr) (handled bool) {
 	// check the concrete signature before evaluating the arguments, so the
 	// fallback path does not evaluate expressions twice
